@@ -14,8 +14,9 @@ META = {
               "include/librfn/ringbuf.h"],
     "bounds": {"quick": "every interleaving (symbolic schedule, one shared-memory access per step) of one producer doing <= 2 puts of symbolic bytes with one "
                         "consumer doing <= 2 gets under free preemption, the same under producer-as-interrupt and consumer-as-interrupt; buffer length 2..3, every "
-                        "start index, all 256 byte values; (ringbuf_putchar / ringbuf_empty-polling agents: thorough tier)",
-               "thorough": "3 + 3 operations under all three disciplines, ringbuf_putchar / ringbuf_empty-polling agents at 2 + 2, the -O2 IR at 2 + 2, and buffer length 4"},
+                        "start index, all 256 byte values; "
+                        "the ringbuf_putchar (retry until accepted) / ringbuf_empty-polling agents at 2 + 2 on a ring of length 2, where the second putchar always meets a full ring",
+               "thorough": "3 + 3 operations under all three disciplines, ringbuf_putchar / ringbuf_empty-polling agents at 2 + 2 also on length 3, the -O2 IR at 2 + 2, and buffer length 4"},
     "outside": ["more operations or longer rings than stated (the code depends on the length only through the wrap, exercised at every length in the bound)",
                 "several producers or several consumers (documented as unsupported)", "executions that are not sequentially consistent (C07 argues from the memory orders)"],
     "assumptions": ["clang-14's IR is the meaning of ringbuf.c; vt/ir2c.py (validated by running the repository's ringbuftest logic against its plain-mode output, see DESIGN.md)",
@@ -39,6 +40,7 @@ def queries(tier, kf):
           q("c05-free-%dx%d" % (n, n), 0, n, n, ml, timeout=7200),
           q("c05-producer-irq-%dx%d" % (ni, ni), 1, ni, ni, ml, timeout=7200),
           q("c05-consumer-irq-%dx%d" % (ni, ni), 2, ni, ni, ml, timeout=7200),
+          q("c05-putchar-poll-len2-2x2", 0, 2, 2, 2, prod="producer_putchar", cons="consumer_poll", extra={"NO_FAIL_WITNESS": None}, timeout=7200),
           ]
     if tier == "thorough":
         qs.append(q("c05-putchar-poll-2x2", 0, 2, 2, 3, prod="producer_putchar", cons="consumer_poll", extra={"NO_FAIL_WITNESS": None}, timeout=7200))
